@@ -18,6 +18,18 @@ correspondence : real hierarchies (every constructor, AIR with R != P^T, hand-bu
                  the operator a recording accelerator of either calling convention receives (cycle string in either case).
                  Gauss-Seidel / SOR / Jacobi closures on real CSR levels are in addition compared (1e-10) with the Q that
                  the Lean kernel models of C09 (pygs / pyjac, proved linear iterations) produce column by column.
+                 Extension E38 (Model/ExtC03XCyc.lean, theorems Proofs/ExtC03XThm.lean): the EXTENDED cycle model cycX / solveX /
+                 precX takes every smoother as a recorded relaxation call -- requested method and options plus the numerical
+                 by-products of its setup (the CSR / CSC / BSR copy of the level matrix the closure works on, omega and
+                 polynomial coefficients after the spectral-radius scaling, exact rational inverses of the stored diagonal blocks,
+                 Schwarz subdomains with the recorded subdomain inverses) -- and executes the validated kernel models of
+                 polynomial (Richardson, Chebyshev), block_jacobi, block_gauss_seidel, jacobi_ne, gauss_seidel_ne,
+                 gauss_seidel_nr, cf_jacobi / fc_jacobi, schwarz, gauss_seidel / sor, jacobi inside the V / W / F recursion
+                 (c03x_run: one cycle, solve(maxiter=k), aspreconditioner @ b against the real solve, same tolerance; the driver
+                 evaluates the theorems' hypothesis AllOK and, on small instances, checks that the cycle equals cycM run with the
+                 matrices Q of the recorded calls), and c03x_q gives the Q of a recorded call column by column for the
+                 requested-smoother check of every family (also on the systematic option grid).  Exact arithmetic on kernels
+                 that divide is expensive: requests are taken cheapest-first (every family first) within a budget per tier.
 search         : an independent NumPy recursion from the same pieces; exact solution is a fixed point; k one-cycle
                  calls == one k-cycle call (bitwise in practice); aspreconditioner is additive/homogeneous, equals the
                  cycle from a zero guess and follows the requested cycle type across a history of requests (V, W, F in
@@ -64,8 +76,12 @@ META = {
                     'with a coarse-level smoother that is affine but not of the form x + Q (b - A x) (zero rows / singular diagonal '
                     'blocks of a coarse matrix) are compared with the NumPy recursion only',
                     'the requested-smoother check (closure installed on level i == the requested relaxation call with the '
-                    'requested options; systematic option grid of every linear smoother family) has a Lean counterpart only for '
-                    'Gauss-Seidel / SOR / Jacobi on real CSR levels (kernel models pygs / pyjac)',
+                    'requested options; systematic option grid of every linear smoother family) has a Lean counterpart (c03x_q: the '
+                    'kernel model of the recorded call applied to the unit right-hand sides; pygs / pyjac for Gauss-Seidel / SOR / '
+                    'Jacobi) for every linear family on real levels within the exact-arithmetic budget of the tier; complex levels, '
+                    'point smoothers and CF / FC block Jacobi on BSR levels, levels with a singular diagonal block or a row without '
+                    'exactly one non-zero stored diagonal entry, cf/fc_block_jacobi with non-default f/c iterations on CSR (known '
+                    'finding) and requests beyond the budget are judged by the direct relaxation call only',
                     'solve(accel=...) hands aspreconditioner(cycle) to the Krylov method: for callables of both conventions the '
                     'composed model (C08 plan + C01 loop + this cycle model; theorem accelerated_solve_preconditioner_is_M) is '
                     'compared with what a recording accel receives; named accelerators are observed by C08',
@@ -85,7 +101,13 @@ META = {
                     'k_one_cycle_calls_eq_one_k_cycle_call; the E17 runs with a live test place tol*||b|| at least 20 % away from '
                     'every residual norm it is compared with (and above 1e-6 of the scale), so rounding cannot flip the decision',
                     'one-level hierarchies have the form x + M (b - A x) only for nonsingular A (theorem one_level_cycle); the '
-                    'singular one-level case is the known finding one-level-singular-x0-ignored'],
+                    'singular one-level case is the known finding one-level-singular-x0-ignored',
+                    'extension E38: the hypothesis Sm.OK / AllOK of the extended-model theorems (the recorded matrix copy is the level '
+                    'matrix entry by entry, indices in range, one non-zero stored diagonal entry per row where the kernel divides by '
+                    'it, Dinv_i A_ii = I) is decided by the driver on every request; block inverses are sent as the exact rational '
+                    'inverses of the stored diagonal blocks (the LAPACK inverses the code uses agree with them to 1e-12, checked; otherwise the probed matrix is used), '
+                    'Schwarz subdomain inverses, scaled omegas and polynomial coefficients are sent as recorded (floats = dyadic '
+                    'rationals); rho estimates (A.rho, A.rho_D_inv, A.rho_block_D_inv) are read from the level matrices'],
 }
 
 TOL = 1e-9
@@ -1263,6 +1285,7 @@ def check_hier(ctx, spec, H, configs, lean_items, want_lean, want_m, precond=Tru
                 # extension E38: the same cycle with the recorded relaxation calls executed by their kernel models
                 lean_items[-1]['e38'] = (f'c03x_run {c} {cpl} {k} {1 if want_m else 0} {H.e38} '
                                          f'{enc_rats(_realify_v(x0, H.cplx))} {enc_rats(_realify_v(b, H.cplx))}')
+                lean_items[-1]['e38_cost'] = e38_cost_run(H.e38_toks, H.dims, c, cpl) * (2.0 if want_m else 1.0)
             if (c, cpl) == configs[0] or rng.random() < 0.1:        # extension E17: the composed solve-path models
                 try:
                     lean_items[-1]['e17'] = e17_observe(ctx, H, hdr, c, cpl, x0, b, A0d, max(sc, sck))
@@ -1527,7 +1550,7 @@ def e38_token(level, Ad, name, kw):
         tok, dinv = bt
         from pyamg.util.utils import get_block_diag
         rec = get_block_diag(A, blocksize=A.blocksize[0], inv_flag=True)
-        if rec.shape != dinv.shape or np.abs(rec - dinv).max(initial=0.0) > 1e-9 * (1 + np.abs(dinv).max(initial=0.0)):
+        if rec.shape != dinv.shape or np.abs(rec - dinv).max(initial=0.0) > 1e-12 * (1 + np.abs(dinv).max(initial=0.0)):
             return None, 'block-inverse-ill-conditioned'
         if name == 'block_gauss_seidel':
             return f'bgs:{tok}:{it}:{sw}', None
@@ -1590,6 +1613,51 @@ def e38_token(level, Ad, name, kw):
     return None, 'no-model'
 
 
+def _tok_depth(tok):
+    """length of the longest chain of dependent exact multiplications / divisions in ONE application of the recorded call (the
+    size of the rationals the Lean driver computes with grows by about 53 bits per link): rows / columns / subdomains of a
+    Gauss-Seidel-like sweep depend on each other, Jacobi-like steps only through the iterations"""
+    f = tok.split(':')
+    kind = f[0]
+    passes = lambda sw: 2 if sw == 'symmetric' else 1
+    if kind == 'mat':
+        return 1
+    if kind == 'poly':
+        return int(f[6]) * max(1, len(f[5].split(',')))
+    if kind in ('gs', 'gsne', 'gsnr'):
+        return int(f[2]) * passes(f[7]) * int(f[6])
+    if kind == 'jac':
+        return 4 * int(f[6])
+    if kind == 'jacne':          # the model of the Python driver recomputes A @ x for every row of the scaled residual
+        return int(f[2]) * int(f[6])
+    if kind == 'cfjac':
+        return 4 * int(f[9]) * (int(f[10]) + int(f[11]))
+    if kind == 'bjac':
+        return 4 * int(f[3]) * int(f[8])
+    if kind == 'bgs':
+        return 2 * int(f[1]) * passes(f[8]) * int(f[7])
+    if kind == 'schwarz':
+        return 2 * max(1, len(f[8].split(',')) - 1) * passes(f[10]) * int(f[9])
+    return 10 ** 6
+
+
+def _visits(c, cpl, nlev):
+    """number of visits of level l = 0 .. nlev-2 in one cycle"""
+    if nlev <= 1:
+        return []
+    return [1 if c == 'V' else 2 ** d if c == 'W' else 1 + cpl * d for d in range(nlev - 1)]
+
+
+def e38_cost_q(tok, n):
+    """estimated driver seconds of a `c03x_q` line (calibrated on this driver: about 5e-5 s per decimal digit of the result)"""
+    return 8e-4 * n * n * _tok_depth(tok)
+
+
+def e38_cost_run(toks, dims, c, cpl):
+    depth = sum(v * (_tok_depth(t1) + _tok_depth(t2) + 2) for v, (t1, t2) in zip(_visits(c, cpl, len(dims)), toks))
+    return 1.5e-5 * dims[0] * depth * depth
+
+
 def e38_levels(ctx, H, spec):
     """per level the tokens of the pre / post smoother for the extended model (probed matrix where no recorded call applies);
     -> (list of (pre token, post token), number of recorded calls, list of (level, side, name, kw, token))"""
@@ -1631,7 +1699,7 @@ def e38_q_items(H, spec, rec, items):
     right-hand sides from a zero guess) against the Q probed from the installed closure"""
     for (i, side, name, kw, tok) in rec:
         items.append({'lines': [f'c03x_q {_encm(H.levels[i]["A"])} {tok}'], 'Q': H.levels[i]['Q' + side], 'level': i, 'side': side,
-                      'name': name, 'kw': kw, 'spec': spec, 'dims': H.dims, 'e38': True})
+                      'name': name, 'kw': kw, 'spec': spec, 'dims': H.dims, 'e38': True, 'cost': e38_cost_q(tok, H.dims[i])})
 
 
 def judge_e38(ctx, items, outs):
@@ -1762,6 +1830,10 @@ def process_spec(ctx, spec, lean_items, sm_items, lean_dim, m_dim, nconf):
     if spec.get('light'):
         # smoother option grid: the requested-smoother check above is the point; one cycle type keeps it cheap
         ctx.feat('smoother-grid')
+        if not H.cplx and H.nlev >= 2 and max(H.dims) <= lean_dim and not H.inconsistent_coarse:
+            # extension E38: the Lean counterpart of the requested-smoother check on the systematic option grid
+            _toks, _nrec, rec = e38_levels(ctx, H, spec)
+            e38_q_items(H, spec, rec, sm_items)
         check_hier(ctx, spec, H, [('V', 1) if spec['t'] % 2 else ('F', 2)], lean_items, False, False, precond=False)
         return True
     # configurations: always V; W and F where they differ; cycles_per_level >= 2 on deep hierarchies
@@ -1784,6 +1856,7 @@ def process_spec(ctx, spec, lean_items, sm_items, lean_dim, m_dim, nconf):
             toks, nrec, rec = e38_levels(ctx, H, spec)
             if nrec:
                 H.e38 = e38_header(H, toks)
+                H.e38_toks = toks
                 e38_q_items(H, spec, rec, sm_items)
     check_hier(ctx, spec, H, confs, lean_items, want_lean, want_m)
     return True
@@ -1977,11 +2050,6 @@ def _lean_balanced(ctx, heavy, light, chunks=8):
     """one driver batch for the (expensive) cycle requests and the (cheap) smoother requests; common.lean_batch cuts the
     list into `chunks` contiguous blocks that run in parallel, so the expensive lines are dealt round-robin over the blocks"""
     n = len(heavy) + len(light)
-    import os
-    if os.environ.get('E38_DUMP'):
-        with open(os.environ['E38_DUMP'], 'a') as f:
-            for ln in heavy + light:
-                f.write(ln + '\n')
     if n == 0:
         return [], []
     if n < 4 * chunks or len(heavy) < chunks:
@@ -2021,6 +2089,30 @@ def run_specs(ctx, specs, lean_dim, m_dim, nconf=4, batch=None):
             if process_spec(ctx, spec, lean_items, sm_items, lean_dim, m_dim, nconf):
                 used += 1
         e17_items = [it for it in lean_items if 'e17' in it]
+        # extension E38: exact arithmetic on the recorded calls is affordable only on small / shallow instances -- the requests
+        # are taken in the order of their estimated cost until the budget of this batch is used (deterministic for a seed)
+        nb = max(1, (len(specs) + batch - 1) // batch)
+        budget = (500.0 if ctx.quick else 5000.0) / nb
+        cap = 12.0 if ctx.quick else 90.0
+        cand = ([('run', it['e38_cost'], id(it), it) for it in lean_items if 'e38' in it]
+                + [('q:' + it['lines'][0].split(' ')[2].split(':', 1)[0], it['cost'], id(it), it) for it in sm_items if it.get('e38')])
+        cand.sort(key=lambda z: z[1])
+        keep, used_cost, seen = set(), 0.0, set()
+        for first_of_kind in (True, False):          # the cheapest request of every family first, then by cost
+            for kind, cost, key, it in cand:
+                if key in keep or (first_of_kind and kind in seen):
+                    continue
+                if cost <= cap and used_cost + cost <= budget:
+                    keep.add(key)
+                    seen.add(kind)
+                    used_cost += cost
+        for kind, cost, key, it in cand:
+            if key not in keep:
+                ctx.feat('e38:skipped-cost:' + kind.split(':')[0])
+        for it in lean_items:
+            if 'e38' in it and id(it) not in keep:
+                del it['e38']
+        sm_items = [it for it in sm_items if not it.get('e38') or id(it) in keep]
         e38_items = [it for it in lean_items if 'e38' in it]
         heavy = ([it['line'] for it in lean_items] + [ln for it in e17_items for ln in it['e17']['lines']]
                  + [it['e38'] for it in e38_items])
